@@ -223,7 +223,13 @@ void Value::do_sub() {
     if (!get_arith_uint256(Value(args[0]), a)) return;
     if (!get_arith_uint256(Value(args[1]), b)) return;
     if (args.size() == 3 && !get_arith_uint256(Value(args[2]), g)) return;
-    b = -b;
+    if (!g.EqualTo(0)) {
+        // the additive inverse modulo g (negating modulo 2^256 and reducing afterwards gives a different residue)
+        b = b % g;
+        b = g - b;
+    } else {
+        b = -b;
+    }
     add(data, a, b, g);
 }
 
